@@ -35,7 +35,8 @@ FloorScaled(r, s) ==
 \* is an integer squared distance D within the radius r (float bits, already clamped to >= 0)?
 \* "in" / "out" / "open" (the spec does not decide distances within 2^-10 of the radius)
 InBall(D, r) ==
-  IF r = FPosInf THEN "in"
+  IF FIsNaN(r) THEN "out"                 \* no distance compares <= NaN
+  ELSE IF r = FPosInf THEN "in"
   ELSE LET t0 == FloorScaled(r, 0) IN
        IF t0 = -1 \/ t0 >= 46340 THEN "in"
        ELSE IF D <= (t0 * t0) THEN "in"
